@@ -12,3 +12,19 @@ Proof.
   apply Hnin'. right. left. reflexivity.
 Qed.
 Print Assumptions at_most_once_pinned_refuted.
+
+(* D5: CalculateBlockSize summed in uint8 on the pinned tree; 101 hops of 3-byte labels wrap
+   to 44 and BuildBlocks indexes out of range (Panic) instead of refusing the path. *)
+From Verif Require Import SwitchLabel.
+Theorem build_blocks_pinned_refuted :
+  exists hops, Forall (fun h => fst h < 65536 /\ snd h < 65536) hops /\ build_blocks_pinned hops = Panic.
+Proof.
+  exists (mk_hops (repeat 20000 100) (repeat 20000 100)). split.
+  - apply Forall_forall. intros h Hin.
+    assert (Hb : forallb (fun h => (fst h <? 65536) && (snd h <? 65536)) (mk_hops (repeat 20000 100) (repeat 20000 100)) = true)
+      by (vm_compute; reflexivity).
+    rewrite forallb_forall in Hb. specialize (Hb h Hin). apply andb_true_iff in Hb as [H1 H2].
+    apply N.ltb_lt in H1, H2. split; assumption.
+  - vm_compute. reflexivity.
+Qed.
+Print Assumptions build_blocks_pinned_refuted.
